@@ -35,6 +35,16 @@ Theorem C12_aligned_closed_form : forall (t : tree) (off len : Z), aligned_tree 
 Proof. exact run_aligned. Qed.
 Print Assumptions C12_aligned_closed_form.
 
+(* Scratch::split_mut (per-thread regions): its assertion available() >= n * len suffices only for aligned len *)
+Theorem C12_split_mut_suffices : forall n len : Z, 0 <= n -> 0 <= len -> len mod 64 = 0 ->
+  run_takes (split_mut n len) (0, n * len) <> None.
+Proof. exact split_mut_suffices. Qed.
+Print Assumptions C12_split_mut_suffices.
+Theorem C12_split_mut_unaligned_refuted :
+  exists n len, 0 <= n /\ 0 <= len /\ n * len <= avail (0, n * len) /\ run_takes (split_mut n len) (0, n * len) = None.
+Proof. exact split_mut_unaligned_refuted. Qed.
+Print Assumptions C12_split_mut_unaligned_refuted.
+
 Theorem C12_align_matches : gen_DEFAULTALIGN = ALIGN.
 Proof. exact align_matches. Qed.
 Print Assumptions C12_align_matches.
@@ -132,20 +142,11 @@ Theorem C12_suffices_cnv_by_const_apply : forall fam n : Z, is_fam fam -> 0 <= n
 Proof. exact suffices_cnv_by_const_apply. Qed.
 Print Assumptions C12_suffices_cnv_by_const_apply.
 
-(* cnv_pairwise_apply_dft: FALSE as stated (the delegate swaps cnv_offset and res_size); true under the side condition *)
-Definition C12_suffices_cnv_pairwise_apply_dft_full : Prop := forall fam n cnv_offset rs a b : Z,
-  is_fam fam -> 0 <= rs -> 1 <= a -> 1 <= b ->
+Theorem C12_suffices_cnv_pairwise_apply_dft : forall fam n cnv_offset rs a b : Z,
+  is_fam fam -> 0 <= n -> 0 <= rs -> 1 <= a -> 1 <= b ->
   run_takes (t_cnv_pairwise_apply_dft fam rs a b) (0, api_cnv_pairwise_apply_dft_tmp_bytes fam n cnv_offset rs a b) <> None.
-Theorem C12_suffices_cnv_pairwise_apply_dft_partial : forall fam n cnv_offset rs a b : Z,
-  is_fam fam -> 0 <= rs -> 1 <= a -> 1 <= b -> Z.min rs (a + b - 1) <= cnv_offset ->
-  run_takes (t_cnv_pairwise_apply_dft fam rs a b) (0, api_cnv_pairwise_apply_dft_tmp_bytes fam n cnv_offset rs a b) <> None.
-Proof. exact suffices_cnv_pairwise_apply_dft_partial. Qed.
-Print Assumptions C12_suffices_cnv_pairwise_apply_dft_partial.
-Theorem C12_suffices_cnv_pairwise_apply_dft_refuted :
-  exists fam n cnv_offset rs a b, is_fam fam /\ pow2 n /\ 8 <= n /\ 0 <= rs /\ 1 <= a /\ 1 <= b /\
-  run_takes (t_cnv_pairwise_apply_dft fam rs a b) (0, api_cnv_pairwise_apply_dft_tmp_bytes fam n cnv_offset rs a b) = None.
-Proof. exact suffices_cnv_pairwise_apply_dft_refuted. Qed.
-Print Assumptions C12_suffices_cnv_pairwise_apply_dft_refuted.
+Proof. exact suffices_cnv_pairwise_apply_dft. Qed.
+Print Assumptions C12_suffices_cnv_pairwise_apply_dft.
 
 (* vmp_apply_dft: two nested takes; n a power of two >= 8 (the FFT64 kernels need n >= 8 anyway) *)
 Theorem C12_suffices_vmp_apply_dft : forall fam n rs a rows ci co size : Z,
@@ -182,27 +183,15 @@ Theorem C12_suffices_ggsw_prepare : forall fam n : Z, is_fam fam -> 0 <= n -> fo
 Proof. exact suffices_ggsw_prepare. Qed.
 Print Assumptions C12_suffices_ggsw_prepare.
 
-(* LWE: FALSE as stated; the exact characterisation: the limb count must be a multiple of 8 *)
-Definition C12_suffices_lwe_encrypt_sk_full : Prop := forall (fam n : Z) (lwe : infos), is_fam fam -> pow2 n -> 0 <= i_size lwe ->
+(* LWE: every limb count (the formula rounds the plaintext level up to the alignment since d19ca82) *)
+Theorem C12_suffices_lwe_encrypt_sk : forall fam n : Z, is_fam fam -> 0 <= n -> forall lwe : infos, 0 <= i_size lwe ->
   run_takes (tree_lwe_encrypt_sk fam n lwe) (0, lwe_encrypt_sk_tmp_bytes fam n lwe) <> None.
-Theorem C12_suffices_lwe_encrypt_sk_iff : forall (fam n : Z) (lwe : infos), is_fam fam -> pow2 n -> 0 <= i_size lwe ->
-  (run_takes (tree_lwe_encrypt_sk fam n lwe) (0, lwe_encrypt_sk_tmp_bytes fam n lwe) <> None <-> i_size lwe mod 8 = 0).
-Proof. exact main_lwe_encrypt_sk_iff. Qed.
-Print Assumptions C12_suffices_lwe_encrypt_sk_iff.
-Theorem C12_suffices_lwe_encrypt_sk_refuted :
-  exists fam n lwe, is_fam fam /\ pow2 n /\ 8 <= n /\ 0 <= i_size lwe /\
-    run_takes (tree_lwe_encrypt_sk fam n lwe) (0, lwe_encrypt_sk_tmp_bytes fam n lwe) = None.
-Proof. exact suffices_lwe_encrypt_sk_refuted. Qed.
-Print Assumptions C12_suffices_lwe_encrypt_sk_refuted.
-Theorem C12_suffices_lwe_decrypt_iff : forall (fam n : Z) (lwe : infos), is_fam fam -> pow2 n -> 0 <= i_size lwe ->
-  (run_takes (tree_lwe_decrypt fam n lwe) (0, lwe_decrypt_tmp_bytes fam n lwe) <> None <-> i_size lwe mod 8 = 0).
-Proof. exact main_lwe_decrypt_iff. Qed.
-Print Assumptions C12_suffices_lwe_decrypt_iff.
-Theorem C12_suffices_lwe_decrypt_refuted :
-  exists fam n lwe, is_fam fam /\ pow2 n /\ 8 <= n /\ 0 <= i_size lwe /\
-    run_takes (tree_lwe_decrypt fam n lwe) (0, lwe_decrypt_tmp_bytes fam n lwe) = None.
-Proof. exact suffices_lwe_decrypt_refuted. Qed.
-Print Assumptions C12_suffices_lwe_decrypt_refuted.
+Proof. exact suffices_lwe_encrypt_sk. Qed.
+Print Assumptions C12_suffices_lwe_encrypt_sk.
+Theorem C12_suffices_lwe_decrypt : forall fam n : Z, is_fam fam -> 0 <= n -> forall lwe : infos, 0 <= i_size lwe ->
+  run_takes (tree_lwe_decrypt fam n lwe) (0, lwe_decrypt_tmp_bytes fam n lwe) <> None.
+Proof. exact suffices_lwe_decrypt. Qed.
+Print Assumptions C12_suffices_lwe_decrypt.
 
 (* ------------------------------------------------------------------ poulpy-core, nested takes: n a power of two >= 8 *)
 Theorem C12_suffices_glwe_encrypt_sk : forall (fam n : Z) (glwe : infos),
